@@ -110,6 +110,30 @@ def check(ctx):
             c = [x for x in ast.walk(st) if isinstance(x, ast.Call) and isinstance(x.func, ast.Attribute) and x.func.attr == nm][0]
             ok = len(c.args) == 1 and is_name(c.args[0], lp)
             ctx.ob("C12.S2", f"{f.short}/{nm}-arg", ok, loc(f, c), "operates on the temporary local path" if ok else "not given the temporary local path", norm(c))
+    # the scratch path is private to each operation: created per call by tempfile.TemporaryDirectory() around the yield
+    ctxs = set()
+    for f in (rd, wr):
+        for w_ in [n for n in f.own_nodes() if isinstance(n, ast.With)]:
+            for it in w_.items:
+                if isinstance(it.context_expr, ast.Call):
+                    ctxs |= {g for g in m.callee_funcs(f, it.context_expr) if g.is_contextmanager}
+    if not ctxs:
+        raise AnalysisError("MountedStore: temporary path context not resolved")
+    for pc in ctxs:
+        ys = [n for n in pc.own_nodes() if isinstance(n, ast.Yield)]
+        tws = [n for n in pc.own_nodes() if isinstance(n, ast.With) and any(
+            isinstance(it.context_expr, ast.Call) and ext_names(m, pc, it.context_expr) & {"tempfile.TemporaryDirectory"} for it in n.items)]
+        ok = len(ys) == 1 and len(tws) == 1 and inside(pc.module, ys[0], tws[0]) and not pc.own_nodes() == []
+        if ok:
+            tv = tws[0].items[0].optional_vars
+            ok = isinstance(tv, ast.Name) and ys[0].value is not None and tv.id in names_in(ys[0].value) and \
+                not [d for d in pc.decorator_names() if d != "contextmanager"]
+            cached = [c for c in pc.own_calls() if any(g.decorator_names() and set(g.decorator_names()) & {"lru_cache", "cache"} for g in m.callee_funcs(pc, c))]
+            ok = ok and not cached
+        ctx.ob("C12.S2", f"{pc.short}/private-scratch", ok, loc(pc),
+               "each operation gets its own TemporaryDirectory; the yielded path lies inside it" if ok else
+               "the scratch path is not created per operation inside its own TemporaryDirectory: concurrent reads/writes of "
+               "mounted stores share one local file and publish each other's values")
     wtxt = [norm(n) for n in ast.walk(wr.node) if isinstance(n, ast.Call) and "create_store" in norm(n.func) and isinstance(n.func, ast.Attribute) and n.func.attr == "write"]
     rtxt = [norm(n) for n in ast.walk(rd.node) if isinstance(n, ast.Call) and "create_store" in norm(n.func) and isinstance(n.func, ast.Attribute) and n.func.attr == "read"]
     ok = len(wtxt) == 1 and len(rtxt) == 1 and wtxt[0].split(".write(")[0] == rtxt[0].split(".read(")[0] and wtxt[0].endswith(f".write({wr.pos_params[1]})")
